@@ -50,7 +50,7 @@ CLI_BODY = '''
         inp += ["-s", "in.s"]
     if src in (2, 3):
         inp += ["-b", "in.bin"]
-    mac = ["--macros"] + ["m1.yaml", "m2.yaml"][:nmacros] if nmacros else []
+    mac = ["--macros"] + ["z_base.yaml", "a_extra.yaml", "z_base.yaml"][:nmacros] if nmacros else []
     argv = ["jasm"] + (inp + opts if order else opts + inp) + mac
     _sys.argv = argv
     _Recorder.last = None
@@ -76,13 +76,13 @@ CLI_BODY = '''
         and c.input_file_type == (InputFileType.assembly if src == 1 else InputFileType.binary)
         and c.matching_mode == (MatchingSearchMode.all_finds if all_matches else MatchingSearchMode.first_find)
         and c.return_only_address == only_addr
-        and c.macros == (["m1.yaml", "m2.yaml"][:nmacros] if nmacros else None)
+        and c.macros == (["z_base.yaml", "a_extra.yaml", "z_base.yaml"][:nmacros] if nmacros else None)
     )
 '''
 
 CLI = '''def cli(all_matches: bool, only_addr: bool, src: int, nmacros: int, has_p: bool) -> bool:
     """
-    pre: 0 <= src <= 3 and 0 <= nmacros <= 2
+    pre: 0 <= src <= 3 and 0 <= nmacros <= 3
     post: _
     """
     fail, order = False, False''' + CLI_BODY
